@@ -217,9 +217,11 @@ const (
 	modCtr    key.Modifier = "verif-counter"
 	// a revive whose insert comes late (priority 600: after inserted actions and ultimates)
 	modReviveLate key.Modifier = "verif-revive-late"
+	// a damage-over-time effect whose phase-1 attack hits the owner's whole side
+	modDotAll key.Modifier = "verif-dot-all"
 )
 
-var simMods = []key.Modifier{modRevive, modDot, modFreeze, modP2, modBext, modDis, modCtr, modReviveLate}
+var simMods = []key.Modifier{modRevive, modDot, modFreeze, modP2, modBext, modDis, modCtr, modReviveLate, modDotAll}
 
 type scriptedChar struct {
 	eng engine.Engine
@@ -356,6 +358,18 @@ func registerScripted() {
 			},
 		})
 	}
+	modifier.Register(modDotAll, modifier.Config{
+		Listeners: modifier.Listeners{
+			OnPhase1: func(mod *modifier.Instance) {
+				side := mod.Engine().Enemies()
+				if mod.Engine().IsCharacter(mod.Owner()) {
+					side = mod.Engine().Characters()
+				}
+				mod.Engine().Attack(info.Attack{Key: "verif-dot", Source: mod.Source(), Targets: side,
+					AttackType: model.AttackType_DOT, DamageType: model.DamageType_FIRE, DamageValue: 400})
+			},
+		},
+	})
 	modifier.Register(modDot, modifier.Config{
 		Listeners: modifier.Listeners{
 			OnPhase1: func(mod *modifier.Instance) {
@@ -490,6 +504,9 @@ func (s *simRun) runProg(p int, src, pt key.TargetID) {
 			for _, t := range s.resolve(c.sel, src, pt) {
 				if (c.a == 0 || c.a == 7) && (e.HasModifier(t, modRevive) || e.HasModifier(t, modReviveLate)) {
 					continue // one revive effect per unit
+				}
+				if (c.a == 1 || c.a == 8) && (e.HasModifier(t, modDot) || e.HasModifier(t, modDotAll)) {
+					continue // one damage-over-time effect per unit
 				}
 				if !e.HasModifier(t, simMods[c.a]) {
 					e.AddModifier(t, info.Modifier{Name: simMods[c.a], Source: src})
